@@ -17,6 +17,9 @@ def substOps : OpTable
   | "spec_escape" => some do
     let a ← bool; let s ← str
     pure (encStr (s.flatMap (if a then escAttrChar else escTextChar)))
+  | "valid_escape" => some do
+    let a ← bool; let orig ← str; let out ← str
+    pure (encBool (validEscape (if a then attrSpecials else textSpecials) orig out))
   | "decode_refs" => some do
     let s ← str
     pure (encStr (decodeCharRefs s))
